@@ -251,7 +251,24 @@ PROPS = {
                     'fixed points)', 'builtin round (exact decimal rounding)'],
         'extra': [{'name': 'redesign', 'kind': 'bounded', 'script': 'bounded/redesign.py', 'timeout': 2400}],
     },
-    'C18': {'level': 'other', 'claim': 'uc', 'level_note': 'uc', 'trusted': [], 'not_applicable': 'under construction'},
+    'C18': {
+        'level': 'other',
+        'claim': 'Proved on the real converters, for all leaf values of structure-fixed documents: the legacy->YANG and '
+                 'YANG->legacy structure converters are inverse pairs - per-degree equalisation targets (three kinds mixed on one '
+                 'ROADM, empty dictionaries), per-degree design bands, per-frequency loss coefficients, Span/SI power ranges of '
+                 'every entry, Raman gain profile, noise-figure polynomial, None <-> [null]; convert_degree emits one list entry '
+                 'per (degree, kind). The statement as a whole (idempotence, values to their declared fraction digits, same '
+                 'library / network / requests loaded from either form, multi-name entries) is a bounded stand-in over the '
+                 'shipped documents and synthetic documents exercising every feature, through the real legacy_to_yang / '
+                 'yang_to_legacy (with libyang validation) and the real loaders.',
+        'level_note': 'NOT an unbounded proof: document trees have a fixed shape in each contract (list lengths <= 4, key sets '
+                      'listed in contracts/c_convert.py); decimal formatting (PrettyFloat / convert_dict / convert_back: string '
+                      'formatting and parsing of floats) and _equipment_from_json (other_name expansion) are outside the contract '
+                      'engine and only checked bounded; edfa-config and API documents are not in the statement and not checked',
+        'trusted': ['python dict/list semantics (insertion order, pop, zip, enumerate, sorted on concrete integer keys)',
+                    'oopt_gnpy_libyang validation (used as is by the bounded stand-in)'],
+        'extra': [{'name': 'yang_roundtrip', 'kind': 'bounded', 'script': 'bounded/yang_roundtrip.py', 'timeout': 2400}],
+    },
     'C19': {'level': 'other', 'claim': 'uc', 'level_note': 'uc', 'trusted': [], 'not_applicable': 'under construction'},
     'C20': {'level': 'other', 'claim': 'uc', 'level_note': 'uc', 'trusted': [], 'not_applicable': 'under construction'},
 }
